@@ -424,10 +424,14 @@ def post_dominates_on_some(f, g, c, mb, tb):
     # structural: mb post-dominates the Some-successor of the discriminant test on the call result
     for blk in f.blocks:
         t = blk.term
-        if "switch" in t and "discr_of" in t and tb.jplace(t["discr_of"]) == strip_refs(tb.call_term(c)):
-            for v, tb_ in t["targets"]:
-                if t.get("variants", {}).get(str(v)) == "Some" and mb in f.pdom.get(tb_, set()):
-                    return True
+        if "switch" in t and "discr_of" in t:
+            dt = tb.jplace(t["discr_of"])
+            ct = strip_refs(tb.call_term(c))
+            via_try = dt[0] == "call" and dt[1].endswith("as std::ops::Try>::branch") and len(dt[2]) == 1 and strip_refs(dt[2][0]) == ct
+            if dt == ct or via_try:
+                for v, tb_ in t["targets"]:
+                    if t.get("variants", {}).get(str(v)) in ("Some", "Continue") and mb in f.pdom.get(tb_, set()):
+                        return True
     return False
 
 
